@@ -31,6 +31,11 @@ def subharnesses(tier):
                             'M' if man0 else 'm', cache0, fault),
                             {'a': [exp0, pl0, man0, cache0],
                              'fault': fault}))
+    # the service loop itself (EventMgr.run): presence and placement watches
+    # fire in any order; whenever the cache is published as ready it mirrors
+    # the placement
+    for first in ('pd', 'pl1', 'pc'):
+        subs.append(('run-loop-%s' % first, {'kind': 'run', 'first': first}))
     return subs
 
 
@@ -85,7 +90,154 @@ def _read(path):
     return txt, (yaml.safe_load(txt) if txt else None)
 
 
+class _StopLoop(Exception):
+    pass
+
+
+RUN_APPS = ['proid.a#0000000001', 'proid.b#0000000002', 'proid.c#0000000003']
+PLACEMENTS = {'pl0': RUN_APPS[:2], 'pl1': RUN_APPS[1:], 'pl2': []}
+
+
+def _run_loop(S, spec):
+    """EventMgr.run with captured watch callbacks; four events chosen by the
+    solver (the first one fixed per sub-harness) are delivered from
+    time.sleep."""
+    import logging
+    logging.disable(logging.CRITICAL)
+    from treadmill import eventmgr
+    d = fsx.fresh()
+    cache = os.path.join(d, 'cache')
+    os.makedirs(cache)
+    tree = memzk.Tree()
+    zk = memzk.Client(tree, 1)
+    tree.seed('/placement/' + HOST)
+    tree.seed('/server.presence/' + HOST, b'{}')
+    for i, app in enumerate(RUN_APPS):
+        tree.seed('/scheduled/' + app, json.dumps(
+            {'memory': '1G', 'services': [{'name': 'w%d' % i}]}).encode())
+    placed = list(PLACEMENTS['pl0'])
+    for app in placed:
+        tree.seed('/placement/%s/%s' % (HOST, app),
+                  json.dumps({'identity': None, 'expires': 1}).encode())
+    watches = {}
+
+    def data_watch(path):
+        def deco(fn):
+            watches['presence'] = fn
+            node = tree.nodes.get(path)
+            fn(node.data if node else None, object() if node else None, None)
+            return fn
+        return deco
+
+    def children_watch(path, fn):
+        watches['placement'] = fn
+        fn(sorted(placed))
+    zk.DataWatch = data_watch
+    zk.ChildrenWatch = children_watch
+    zk.add_listener = lambda f: None
+
+    class _Lease:
+        def heartbeat(self):
+            pass
+
+        def remove(self):
+            pass
+
+    class _Env:
+        cache_dir = cache
+
+        class watchdogs:
+            @staticmethod
+            def create(**kw):
+                return _Lease()
+    mgr = eventmgr.EventMgr.__new__(eventmgr.EventMgr)
+    mgr.tm_env = _Env()
+    mgr._hostname = HOST
+
+    class _Ctx:
+        class GLOBAL:
+            class zk_:
+                conn = zk
+    _Ctx.GLOBAL.zk = _Ctx.GLOBAL.zk_
+    eventmgr.context = _Ctx
+    eventmgr.utils = type('U', (), {'exit_on_unhandled':
+                                    staticmethod(lambda f: f)})
+    state = {'presence': True, 'step': 0}
+    kinds = ['pd', 'pc', 'pl0', 'pl1', 'pl2']
+
+    def check(tag):
+        names = sorted(n for n in os.listdir(cache) if not n.startswith('.'))
+        ready = os.path.exists(os.path.join(cache, '.ready'))
+        if ready:
+            S.reach('ready_published')
+            S.check('C12:cache_names_instance_not_placed_here' + tag,
+                    set(names) <= set(placed),
+                    {'cache': names, 'placed': sorted(placed)})
+            S.check('C12:placed_instance_without_cache_file' + tag,
+                    set(placed) <= set(names),
+                    {'cache': names, 'placed': sorted(placed)})
+            S.check('C12:ready_published_without_presence' + tag,
+                    state['presence'])
+
+    def deliver(kind):
+        ev = lambda t: type('E', (), {'type': t})()
+        if kind == 'pd':
+            S.assume(state['presence'])
+            tree.nodes.pop('/server.presence/' + HOST, None)
+            state['presence'] = False
+            watches['presence'](None, None, ev('DELETED'))
+        elif kind == 'pc':
+            S.assume(not state['presence'])
+            tree.seed('/server.presence/' + HOST, b'{}')
+            state['presence'] = True
+            watches['presence'](b'{}', object(), ev('CREATED'))
+        else:
+            new = PLACEMENTS[kind]
+            S.assume(sorted(new) != sorted(placed))
+            for app in list(placed):
+                if app not in new:
+                    tree.nodes.pop('/placement/%s/%s' % (HOST, app), None)
+            for app in new:
+                if app not in placed:
+                    tree.seed('/placement/%s/%s' % (HOST, app), json.dumps(
+                        {'identity': None, 'expires': 2}).encode())
+            placed[:] = list(new)
+            watches['placement'](sorted(placed))
+            S.reach('placement_changed_in_loop')
+
+    class _Time:
+        @staticmethod
+        def time():
+            return 1000.0
+
+        @staticmethod
+        def sleep(_n):
+            k = state['step']
+            state['step'] = k + 1
+            check(':loop%d' % k)
+            if k >= 4:
+                raise _StopLoop()
+            kind = spec['first'] if k == 0 else \
+                kinds[S.choice('event_%d' % k, len(kinds))]
+            deliver(kind)
+            check(':after_event%d' % k)
+    eventmgr.time = _Time
+    try:
+        mgr.run(once=False)
+    except _StopLoop:
+        pass
+    finally:
+        import time as _t
+        import treadmill.utils as _u
+        eventmgr.time = _t
+        eventmgr.utils = _u
+    S.reach('synchronized')
+    S.reach('service_loop_ran')
+
+
 def harness(S, spec):
+    if spec.get('kind') == 'run':
+        return _run_loop(S, spec)
     import logging
     logging.disable(logging.CRITICAL)
     from treadmill import eventmgr, fs
@@ -283,10 +435,12 @@ TWINS = ['a-EPM-absent-none']
 
 META = {
     'functions_encoded': [
-        'eventmgr.EventMgr._synchronize', 'EventMgr._cache',
+        'eventmgr.EventMgr.run (presence / placement watches, '
+        '_cache_notify)', 'eventmgr.EventMgr._synchronize', 'EventMgr._cache',
         'fs.write_safe', 'fs.replace', 'fs.rm_safe',
         'zkutils.get', 'zkutils.get_with_metadata'],
     'reach_required': ['synchronized', 'written', 'kept_existing',
                        'fault_injected', 'rename_observed',
-                       'crash_after_temp_exists'],
+                       'crash_after_temp_exists', 'service_loop_ran',
+                       'ready_published', 'placement_changed_in_loop'],
 }
